@@ -1,11 +1,58 @@
 (* C01 — RFC 6902 application computes the RFC result (v5).
-   Proved so far: the container level of the refinement — for EVERY array length and every
-   canonical index token (non-negative, negative, "-"), with SupportNegativeIndices on or off, the
-   index arithmetic of partialArray.get/add/remove/set is the reference's list operation, and
-   fails exactly when the reference fails.  The lift through the pointer walk to whole patches is
-   stated in ApplySim.v (see open obligations in the evidence). *)
-From JP Require Import Bytes Json Pointer Rfc6902 ImplV5 ImplFacts.
+   The model of patch.go (ImplV5: lazily parsed nodes, ordered key lists + member maps, in-place
+   index arithmetic, the pointer walk of findObject, the six operations) is proved to refine the
+   reference semantics Rfc6902.rfc_apply, for ALL documents and ALL operation sequences in the
+   property's stated domain, with SupportNegativeIndices on or off.  The model is tied to the Go
+   code by the correspondence run (see evidence). *)
+From JP Require Import Bytes Json Text Strings Den Pointer Rfc6902 ImplV5 Domain JsonFacts Abs EqualFacts ImplFacts RefFacts ApplyFacts ApplySim.
 
+(* Apply on bytes.  Hypotheses = the property's domain: root object/array without duplicate names
+   (tnodup), operations in op_dom (pointers "" or /tok/.../tok with non-empty tokens whose numeric
+   spellings are canonical; "" not the target of remove/copy/move; root not replaced by null;
+   patch values without duplicate names), plain options (the three behavioural options are C12,
+   C13, C14).  For patches that contain a copy the codec round trip of deepCopy is a hypothesis
+   (codec_ok, see DESIGN: open obligation); patches without copy need nothing.
+   Conclusion: Apply succeeds exactly when the reference does; then the output encodes a node
+   whose value IS the reference result (so, a fortiori, structurally equal); a failure is reported
+   at the same operation index. *)
+Theorem C01_apply_refines_rfc : forall o indent p doc t,
+  (has_copy p -> codec_ok) -> plain_opts o -> parse doc = Some t -> root_container t = true -> tnodup t = true ->
+  Forall op_dom p ->
+  match rfc_apply (dia o) (den t) (map den_op p) with
+  | Done j => exists n, api_apply o indent p doc = ROut (output o indent (render (o_esc o) n)) /\ aval n = j /\ ngood n
+  | Failed i cz => exists e, api_apply o indent p doc = RErr (Some i) e /\ cause_rel cz e
+  end.
+Proof. exact api_apply_sim. Qed.
+Print Assumptions C01_apply_refines_rfc.
+
+(* one operation on any reachable state, whatever lazy parsing earlier operations left behind *)
+Theorem C01_step_refines_rfc : forall o st op,
+  (op_kind op = KCopy -> codec_ok) -> sgood st -> plain_opts o -> op_dom op ->
+  match rfc_step (dia o) (sval st) (den_op op) with
+  | Rfc6902.Ok j' => exists st', step o st op = Ok st' /\ sval st' = j' /\ sgood st'
+  | Rfc6902.Fail cz => exists e, step o st op = Err e /\ cause_rel cz e
+  end.
+Proof. exact step_sim. Qed.
+Print Assumptions C01_step_refines_rfc.
+
+(* the pointer walk: findObject reaches exactly the container the reference descends to, and lazy
+   parsing along the way never changes the document's value *)
+Theorem C01_walk : forall o parts c,
+  cgood c -> Forall tok_dom (map decode_token parts) ->
+  match descend (dia o) (map decode_token parts) (cval c) with
+  | Some p =>
+      if is_container p then
+        exists cp (back : con -> con), cval cp = p /\ cgood cp /\
+          (forall A (f : con -> A * con), walk o parts c f = (Some (fst (f cp)), back (snd (f cp)))) /\
+          (forall cp', cgood cp' ->
+             cval (back cp') = rebuild (dia o) (map decode_token parts) (cval c) (cval cp') /\ cgood (back cp'))
+      else exists c', (forall A (f : con -> A * con), walk o parts c f = (None, c')) /\ cval c' = cval c /\ cgood c'
+  | None => exists c', (forall A (f : con -> A * con), walk o parts c f = (None, c')) /\ cval c' = cval c /\ cgood c'
+  end.
+Proof. exact walk_spec. Qed.
+Print Assumptions C01_walk.
+
+(* the index arithmetic of partialArray for every length and every canonical token *)
 Theorem C01_get_index : forall o (l : list node) t,
   tok_small t -> tok_canonical t ->
   match idx_existing (dia o) (Rfc6902.zlen l) t with
@@ -33,10 +80,12 @@ Theorem C01_remove_index : forall o (ns : list node) t,
 Proof. exact ary_remove_ref. Qed.
 Print Assumptions C01_remove_index.
 
-Theorem C01_replace_index : forall o (ns : list node) t v i,
-  resolve_idx_get o (ImplV5.zlen ns) t = Ok i -> ary_set o ns t v = Ok (set_at i v ns).
-Proof. exact ary_set_after_get. Qed.
-Print Assumptions C01_replace_index.
+(* a passing test is decided by structural equality of the values, in any parse state; an absent
+   member compares as null; a stored null is null *)
+Theorem C01_test_is_structural_equality : forall v ov, ngood v -> ngood ov ->
+  jeq (aval v) (aval ov) = if is_null v then is_null ov else if is_null ov then false else node_equal v ov.
+Proof. exact test_value_rel. Qed.
+Print Assumptions C01_test_is_structural_equality.
 
 (* non-vacuity: all six operations, a negative index, "-", "~1", null round trip *)
 Example C01_nonvacuous :
